@@ -38,7 +38,7 @@ var c13States = []struct{ w, s string }{
 	{"namedpipe", "wait_open"}, {"namedpipe", "idle_read"},
 	{"syslog", "wait_open"}, {"syslog", "idle_read"}, {"syslog", "blocked_login"},
 	{"auditlog", "wait_open"}, {"auditlog", "idle_read"}, {"auditlog", "full_buffer"},
-	{"read", "idle_select"}, {"read", "busy_read"}, {"read", "inflight_failing_sink"},
+	{"read", "idle_select"}, {"read", "busy_read"}, {"read", "inflight_failing_sink"}, {"read", "inflight"},
 }
 
 func genC13(rt *rapid.T) c13Case {
@@ -228,9 +228,25 @@ func execC13(c c13Case) Outcome {
 		releaseOpen()
 	}
 	_ = ret
-	time.Sleep(5 * time.Millisecond)
+	// the producer keeps writing after the worker has returned: none of it may be delivered
+	if c.State == "idle_read" || c.State == "wait_open" {
+		wr := w
+		if wr == nil {
+			if f, e := os.OpenFile(path, os.O_WRONLY|0o4000 /* O_NONBLOCK */, 0); e == nil {
+				wr = f
+				defer f.Close()
+			}
+		}
+		if wr != nil {
+			_, _ = wr.WriteString(line)
+			if c.Worker == "syslog" {
+				_, _ = wr.WriteString("4243 Accepted password for late from 1.2.3.4 port 22 ssh2\n")
+			}
+		}
+	}
+	time.Sleep(15 * time.Millisecond)
 	if after := count(); after != at {
-		return fail("%s worker delivered %d more records after it returned", c.Worker, after-at)
+		return fail("%s worker delivered %d more records after it returned (state %s)", c.Worker, after-at, c.State)
 	}
 	select {
 	case l := <-logins:
@@ -298,6 +314,39 @@ func execC13Read(c c13Case) Outcome {
 		rig.cancel()
 		if _, ok := rig.waitExit(c13Bound); !ok {
 			return fail("auditd.Read with %d incomplete events in flight and a failing event sink did not return within %v of cancellation:\n%s", n, c13Bound, goroutineDump("auditd"))
+		}
+		return Outcome{NT: true, Labels: labels}
+	}
+	if c.State == "inflight" {
+		// incomplete kernel events of a correlated session are in flight (healthy
+		// sink) when the cancellation arrives: whatever returning flushes must be
+		// delivered before Read returns, nothing afterwards
+		if c.Pre == 0 {
+			for _, ln := range audEventForOp(1, hop{K: "open", S: 1, P: 1}).Lines {
+				if err := rig.line(ln); err != nil {
+					return fail("Read exited: %v", rig.exitErr)
+				}
+			}
+		}
+		n := 20 + 30*(c.Cap%5)
+		for i := 0; i < n; i++ {
+			ae := audEventForOp(500+i, hop{K: "ev", S: 1, T: "SYSCALL", P: 1})
+			if err := rig.line(ae.Lines[0]); err != nil { // the SYSCALL record only
+				return fail("Read exited: %v", rig.exitErr)
+			}
+		}
+		if err := rig.auditBarrier(); err != nil {
+			return fail("Read exited: %v", rig.exitErr)
+		}
+		time.Sleep(time.Duration(c.DelayU) * time.Microsecond)
+		rig.cancel()
+		if _, ok := rig.waitExit(c13Bound); !ok {
+			return fail("auditd.Read with %d incomplete events in flight did not return within %v of cancellation:\n%s", n, c13Bound, goroutineDump("auditd"))
+		}
+		at := rig.rec.Len()
+		time.Sleep(30 * time.Millisecond)
+		if after := rig.rec.Len(); after != at {
+			return fail("auditd.Read delivered %d more events to the sink after it had returned (%d in-flight events at cancellation)", after-at, n)
 		}
 		return Outcome{NT: true, Labels: labels}
 	}
